@@ -498,22 +498,22 @@ PROPS = {
         runs=[dict(comp="place", quick=2400, thorough=64000)],
         classify=cls_c17,
         nontrivial=lambda line: '"op":"reset"' not in line,
-        rule="place: random configurations (queue tree of depth <=3 with managed leaf/parent queues, submit/admin ACL texts incl. wildcards, group-only, empty and invalid entries, child templates, now and then a configured queue named @recovery@; "
+        rule="place: random configurations (queue tree of depth <=3 with managed leaf/parent queues, submit/admin ACL texts incl. wildcards, group-only, empty and invalid entries, child templates (max applications, resources and 1..4 behaviour properties: application.sort.policy / sort.priority, priority.policy / offset, preemption.policy / delay, quota.preemption.delay, unschedasks backoff / delay, with valid, capitalised and bogus values), now and then a configured queue named @recovery@; "
              "0..4 placement rules provided/user/tag/fixed with parent rules up to depth 2, create flags, allow/deny filters (also Deny/DENY) with user/group lists or single-entry regular expressions, fixed values that are existing leaves/parents, "
              "new names, root-prefixed names without dot, recovery queue spellings, values only the rule constructor refuses) loaded through scheduler.NewClusterContext "
              "(configurations the validator rejects are counted and skipped); per configuration 6..19 operations: application submissions through ClusterContext.handleRMUpdateApplicationEvent (users incl. names with dots and '$', 1..3 groups, "
              "requested queue: empty, existing leaf/parent in several capitalisations, unqualified, new below leaf/parent, recovery queue spellings, empty parts, invalid characters, 64/65 character parts; namespace/team tags; force-create tag), "
              "MarkQueueForRemoval of managed queues (draining), configuration reloads with the same queues and a new rule list (UpdateRMSchedulerConfig -> UpdateRules), direct security.NewACL/CheckAccess cases. Every submission line carries the RM answer, the application's queue, the recursive CheckSubmitAccess answer of every queue for the user before the submission, "
-             "the regexp oracle and the whole queue tree afterwards; the driver compares all of it with the model and evaluates the property clauses on the implementation's answer. non-trivial = not a reset line; distinct = distinct protocol lines",
+             "the regexp oracle and the whole queue tree afterwards (per queue: leaf, managed, draining, template text and template properties, applied template-controlled settings, and the EFFECTIVE settings UpdateQueueProperties derived: sorting policy, priority sort / fence / offset, preemption policy / delay, quota preemption delay, ask backoff / delay); the driver compares all of it with the model and evaluates the property clauses on the implementation's answer. non-trivial = not a reset line; distinct = distinct protocol lines",
         trusted=["regular expressions of filters are opaque: the harness reports regexp.MatchString for every (pattern, user/group name) pair of the case; whether an entry is a regexp (configs.SpecialRegExp) is modelled",
                  "names are ASCII (strings.ToLower / EqualFold are modelled by ASCII case folding); a dotted queue name is modelled by the list of its parts",
                  "ACL texts of managed queues are taken from the generated configuration (the queue DAO does not expose them); the recursive CheckSubmitAccess answer of every real queue is compared with the model for every submitting user",
-                 "child templates and the settings they control are compared as canonical text (max applications, properties, guaranteed and max resource of the queue DAO); application tags that set quotas on dynamic queues are not generated"],
+                 "child templates and the settings they copy are compared as canonical text (max applications, properties, guaranteed and max resource of the queue DAO), the derived effective settings field by field against Yk.Reload.deriveSettings (the derivation of the C16 model; durations without fractions); application tags that set quotas on dynamic queues are not generated"],
         assumptions=["one partition; the user/group resolver is not used (every request carries its groups)", "rule chains are those the rule constructors accept (Rule.wf: fixed values with valid parts, no parent below a qualified fixed rule, tag name set)"],
         level_text="Lean 4 proofs over the executable model of NewACL/CheckAccess, the filters, the five rule types with parent rules, PlaceApplication and AddApplication/createQueue, for ALL queue trees, rule chains, ACLs, oracles and applications: "
                    "an accepted application is in a leaf queue that was an active leaf if it existed; the queue is the one designated by the first rule in configured order whose result passes the checks (every earlier rule yields nothing or a queue that fails them); "
                    "outside forced recovery some existing queue on the path admits the user through its submit or admin ACL; queues are created only for a rule with create enabled (or the recovery rule of a forced application), with valid name parts, below a non-leaf queue, "
-                   "a new leaf carrying that queue's child template; no matching rule means rejection with the no-rule reason; only a force-created application ends in the recovery queue; placement never panics on a tree with a root queue (every rule result starts with the part root); "
+                   "a new leaf carrying that queue's child template, in its copied settings and in the effective settings derived from the template's properties (created_queue_settings; clause C17.C2); no matching rule means rejection with the no-rule reason; only a force-created application ends in the recovery queue and no call creates a queue at or below the recovery queue path other than that leaf (recovery_path_protected); placement never panics on a tree with a root queue (every rule result starts with the part root); "
                    "a filter is evaluated as configured whatever the capitalisation of its type. The one remaining exception — a forced application taken by a draining configured recovery queue — is stated in the theorem and shown by a witness (known finding C17.L3). "
                    "Tie: differential correspondence of the model against the real ClusterContext plus the same clauses evaluated on the implementation's answers.",
         level_note="trusted: Lean kernel; hand-written placement model tied by correspondence only; regexps as an oracle; ASCII names; ACL texts from the generated configuration",
@@ -688,6 +688,7 @@ PROPS = {
         rule="reload: histories (n/20 of them) on a real ClusterContext driven synchronously through hooks: a generated configuration (root -> a, b{b1,b2}, c, d, e{e1{e11}} with sparse max / guaranteed / maxapplications, "
              "properties from the nine interpreted keys with valid and invalid values, child templates, user/group limits, node sort policy, preemption flag, sometimes a second partition) is loaded, then 25..70 operations: "
              "nodes, applications in configured and dynamic queues (also submitted to draining queues, parents, missing queues), asks, scheduling cycles (reservation delay 0), releases, removals, the partition manager's queue cleaner (hook), "
+             "a liveness probe after 40% of the updates (a node with room for everything is registered, every live application gets one small ask, scheduling cycles run to quiescence, the line records which probe asks were allocated and, for the others, whether run gates / back-off / queue headroom / user headroom / node room stand in the way; asks and node are removed again), "
              "and configuration updates (25%) through the RM event path (checksum short-cut) or UpdateRMSchedulerConfig: 1..3 mutations of the configuration in force (add leaf / parent, drop a subtree, re-add a dropped subtree, leaf->parent, parent->leaf, "
              "resources, maxapplications, properties, child template, limits, partition settings and placement rules, add a partition), the identical text, a comment-only change, configurations the validator refuses (6 kinds), "
              "configurations the validator accepts and the loader refuses (template quantity, ACL text, top queue name, unknown rule) in the first or in the second partition. Every line carries the complete dump of the core plus per partition the "
@@ -706,7 +707,8 @@ PROPS = {
                    "applications, reservations and counters and new queues start empty; after an accepted update every configured queue is present, managed, active (reactivated) and of the configured type, every other managed queue is no longer active, "
                    "dynamic queues are untouched; REFINEMENT: every configured queue carries the configuration-derived fields (limits, effective properties incl. inherited ones and what is derived from them, child template) of a FRESH load of the same configuration, "
                    "inherited child templates and the maxapplications of the top queue included, proved at full strength for every configuration without a queue NAMED root below the top queue, under an explicit hypothesis otherwise and machine-checked to FAIL without it (resources of a queue named root: known finding L2); the fresh load carries exactly what each entry says, inheritance key by key (own value, else the filtered parent value); "
-                   "the queue cleaner only removes, and only queues without applications that are draining or dynamic and have no child left; a draining queue (or a queue to be created below one) takes no application. "
+                   "the queue cleaner only removes, and only queues without applications that are draining or dynamic and have no child left; a draining queue (or a queue to be created below one) takes no application; marking queues for removal does not change what any parent offers to the scheduling cycle (the sortQueues filter: not stopped, pending > 0), a draining child with pending resources is offered. "
+                   "Monitor (no theorem): clause K1 — a starved probe ask in a draining leaf or below a draining queue while the control group in active leaves is served. "
                    "Tie: one-step differential correspondence of the model against a real ClusterContext (answer and complete queue tree after every update / cleaner run / submission), the model's fresh load against the real dry-run partition, "
                    "and the same clauses evaluated on the implementation's dumps.",
         level_note="trusted: Lean kernel; hand-written reload model tied by correspondence only; parsers and validator as oracles; ACLs and user/group limits outside the modelled state; the recursive MarkQueueForRemoval walk is modelled by its characterisation under a tree invariant checked at run time",
